@@ -73,6 +73,10 @@ MC = {
                      "cfg": dec_cfg("TokPAY", "FirstPAY", 2, ["Refines", "SameBoundary", "OpenAgrees"], paylen=q(4, 6), spec="CSpec")},
     "contract_cap": {"module": "MC_Contract",
                      "cfg": dec_cfg("TokCAP", "FirstCAP", 2, ["Refines", "SameBoundary", "OpenAgrees"], caps=q("CapsQuick", "CapsThorough"), paylen=q(4, 6), spec="CSpec")},
+    # deep random walks: 12 tokens incl. finalize / reset anywhere, five capacities, judged by the contract at every step
+    "sim_contract": {"module": "MC_Contract", "workers": 8, "simulate": True,
+                     "extra": lambda tier: ["-simulate", "num=%d" % (400 if tier == "thorough" else 40), "-depth", "14"],
+                     "cfg": dec_cfg("TokHIST", "FirstHIST", 12, ["Refines", "SameBoundary", "OpenAgrees"], caps="{0, 1, 2, 5, 1073741824}", spec="CSpec")},
     "neg_contract_drop": {"module": "MC_Contract", "expect": "Refines",
                           "cfg": dec_cfg("TokNOISE", "FirstNOISE", 6, ["Refines"], fallback="drop", spec="CSpec")},
     "roundtrip_pay": {"module": "MC_Decoder",
@@ -122,6 +126,13 @@ PROOFS = {
                          ("step", ["--cinit=CInit", "--init=IndInit", "--inv=IndInv", "--length=1"]),
                          ("step_as_found", ["--cinit=CInitDrop", "--init=IndInit", "--inv=IndInv", "--length=1"])],
                 "expect_fail": ["step_as_found"]},
+    "arraybuf_ref": {"module": "ArrayBufRef",
+                     "claim": "after any number of push / extend_from_slice / truncate / clear / from_iter operations, for every capacity N <= 4, all byte values and all slice lengths, the view of the "
+                              "array-with-stale-bytes representation equals the ideal bounded vector and both return the same result; a truncate that assigns min(k, N) fails the induction step",
+                     "runs": [("base", ["--cinit=CInit", "--init=Init", "--inv=IndInv", "--length=0"]),
+                              ("step", ["--cinit=CInit", "--init=IndInit", "--inv=IndInv", "--length=1"]),
+                              ("step_truncate_set", ["--cinit=CInitSet", "--init=IndInit", "--inv=IndInv", "--length=1"])],
+                     "expect_fail": ["step_truncate_set"]},
     "stream_abs": {"module": "StreamAbs",
                    "claim": "for every input length n an abstraction of the streaming parser (every successful sub-parse consumes >= 1 byte, any sub-parse may fail) yields at most n + 1 items and nothing after "
                             "an error or None; with the countdown kept across an error (as found, D6) the induction step fails",
@@ -236,10 +247,11 @@ PROPS = {
                          "exhaustive enumeration of depth 3 (4 in thorough) for N in 0..3 (and 4, Vec in thorough), random histories of up to 24 operations on N in {5,8,16,31,48,255,256} and Vec",
                  "assumptions": ["TLC evaluates ArrayBuf.IdealObs correctly", "std's Debug for slices is the reference for the Debug clause", "capacities limited to the ArrayBuf<N> instantiations compiled into the harness"]},
                 mc={"quick": ["arraybuf"], "thorough": ["arraybuf"]},
+                proofs=["arraybuf_ref"],
                 steps=[{"cmd": "c18", "judge": "J_C18", "tlcgen": "arraybuf_ops"}]),
     "C17": dict(T("every stream of ADV / INFRAME / HIST / NOISE, corpus, mutations with push+finalize and SmlReader (iterator, io::Read); noise runs of 255..2^17+1 bytes; "
                   "both the overflow-checked and the wrapping (release) build; record = (length, event list)"),
-                mc={"quick": ["tiles_adv", "tiles_hist", "contract_hist"], "thorough": ["tiles_adv", "tiles_hist", "contract_hist", "resync_noise"]},
+                mc={"quick": ["tiles_adv", "tiles_hist", "contract_hist"], "thorough": ["tiles_adv", "tiles_hist", "contract_hist", "sim_contract", "resync_noise"]},
                 proofs=["matcher"],
                 steps=[{"cmd": "c17", "judge": "J_C17", "profile": "wrapping"}, {"cmd": "c17", "judge": "J_C17", "profile": "checked"},
                        {"cmd": "c17", "judge": "J_Contract", "profile": "checked", "cfg": "JudgeN.cfg", "reuse": True}]),
@@ -297,7 +309,7 @@ MANIFEST_TEXT = {
               "5/C16", "TLC model checking + TLC-judged trace validation (J_C16)"),
     "C18": _t("TLC checks that the array-with-stale-bytes representation refines the ideal bounded vector over all operation sequences up to the bound (Refines, SameResult, ViewOnly); every maximal "
               "behaviour TLC generates is replayed into the real ArrayBuf<N> and, with the harness' own exhaustive and random histories, judged against ArrayBuf.IdealObs.", "5/C18",
-              "TLC model checking (refinement) + TLC-generated behaviours replayed into the code + TLC-judged trace validation (J_C18)",
+              "TLC model checking (refinement) + Apalache inductive side-proof of the refinement (unbounded histories, N <= 4) + TLC-generated behaviours replayed into the code + TLC-judged trace validation (J_C18)",
               "Trusted: TLC, ArrayBuf.tla's ideal vector, std slice Debug; capacities limited to the instantiations compiled into the harness."),
     "C17": _t("TLC checks the Tiles ghost invariant on the decoder spec (ADV, HIST with small capacities, NOISE) and judges the event lists of the real decoder/reader in both the overflow-checked and the wrapping build, "
               "including noise runs beyond 2^16.", "5/C17", "TLC model checking + Apalache inductive side-proof (ndisc + ninit = bytes since boundary, unbounded) + TLC-judged trace validation (J_C17)"),
